@@ -337,7 +337,7 @@ func TestArgumentTables(t *testing.T) {
 		}
 	}
 	// load_json: the decoded document is a fresh value each time - a script may write to it; the subject text is untouched
-	for di, doc := range []string{"{\"a\": 1, \"items\": [1, 2]}", "[1, [2, 3], {\"k\": null}]", "{}", "[]", "\"str\"", "12", "null", "{\"a\": {\"b\": {\"c\": [true]}}}", "{bad", "", "[1, 2", "{\"dup\": 1, \"dup\": 2}", "1e400", "[1.0, 2.50, 1e2, -0.0]", "\"\\ud83d\\ude00 \\u00e9\""} {
+	for di, doc := range []string{"{\"a\": 1, \"items\": [1, 2]}", "[1, [2, 3], {\"k\": null}]", "{}", "[]", "\"str\"", "12", "null", "{\"a\": {\"b\": {\"c\": [true]}}}", "{bad", "", "[1, 2", "{\"dup\": 1, \"dup\": 2}", "1e400", "[1.0, 2.50, 1e2, -0.0]", "{\"a\": 1}}", "{\"a\": 1} }", "[1, 2]]", "\"x\"]", "1}", "{\"a\": 1} x", "{\"a\": 1}{\"b\": 2}", "1 2", "[1, 2] ,", "{\"a\": 1}\n", " \t{\"a\": 1} \n", "\ufeff{\"a\": 1}", "{\"a\": 1,}", "[1, 2,]", "{'a': 1}", "NaN", "Infinity", "-0", "01", "\"\\x41\"", "\"\\ud83d\\ude00 \\u00e9\""} {
 		if di%evid.NShards() != evid.Shard() {
 			continue
 		}
